@@ -300,10 +300,17 @@ func recordEpoch(c *lib.Ctx, rng *rand.Rand, sock string, keeper daemondefs.Clie
 	}
 	total := 12 + rng.Intn(27) // <= 38 concurrent requests, + 2 final reads
 	plans := make([][]storex.Op, k)
+	resets := make([]map[int]bool, k) // goroutines owning their connection drop it before some requests (redial path)
 	hi := base.R.N
 	for i := 0; i < total; i++ {
 		g := rng.Intn(k)
 		o := randomOp(rng, hi+i/3)
+		if clients[g] != shared && rng.Intn(10) == 0 {
+			if resets[g] == nil {
+				resets[g] = map[int]bool{}
+			}
+			resets[g][len(plans[g])] = true
+		}
 		plans[g] = append(plans[g], o)
 	}
 	var wg sync.WaitGroup
@@ -314,7 +321,10 @@ func recordEpoch(c *lib.Ctx, rng *rand.Rand, sock string, keeper daemondefs.Clie
 		go func(g int) {
 			defer wg.Done()
 			<-start
-			for _, o := range plans[g] {
+			for i, o := range plans[g] {
+				if resets[g][i] {
+					clients[g].ResetConn()
+				}
 				if err := tr.call(g+1, clients[g], o); err != nil {
 					errs[g] = realErr{o.Op, err}
 					return
